@@ -103,7 +103,8 @@ export function genDisc(rng, d, names, force = null) {
   // force = {key, tags}: a second union over the same discriminator and the same tags (different bodies)
   const key = force ? force.key : rng.pick(["t", "kind", "type"]);
   const nv = force ? force.tags.length : 2 + rng.below(2);
-  const pool = ["a", "b", "c", "d", "constructor", "toString", "__proto__"];
+  // "A" / "a", "a-b" / "a b": tags that read the same once sanitized for a schema definition name
+  const pool = ["a", "b", "c", "d", "constructor", "toString", "__proto__", "A", "a-b", "a b"];
   const variants = [];
   const used = new Set();
   for (let i = 0; i < nv; i++) {
